@@ -16,7 +16,7 @@ use grin_util::secp::pedersen::Commitment;
 use grin_util::ToHex;
 use grin_wallet_libwallet as libwallet;
 use grin_wallet_libwallet::api_impl::owner;
-use grin_wallet_libwallet::{Context, InitTxArgs, IssueInvoiceTxArgs, PaymentProof, Slate, SlateState, SlatepackAddress};
+use grin_wallet_libwallet::{Context, InitTxArgs, IssueInvoiceTxArgs, OutputStatus, PaymentProof, Slate, SlateState, SlatepackAddress};
 use serde_json::{json, Value};
 use std::collections::BTreeSet;
 
@@ -711,6 +711,71 @@ fn named_account_scenario(w: &mut World, rep: &mut Report, rng: &mut Rng, prop: 
 	let _ = wal.refresh();
 }
 
+/// "spends exactly the inputs the wallet reserved", for a transaction the wallet has given up: after
+/// `cancel_tx` nothing is reserved for the slate any more, so a later finalization of the (honest)
+/// reply must be refused - or, if it succeeds, every input of the returned transaction must be
+/// reserved (Locked) for it again. Run for a send with change and for a send without change output
+/// (amount + fee = one whole coin), because cancelling removes the change record of the former.
+fn cancelled_then_finalized(w: &mut World, rep: &mut Report, rng: &mut Rng, prop: &str, no_change: bool) {
+	fund(w);
+	let wal = &w.wallets[0];
+	let _ = wal.refresh();
+	let height = w.node.chain().head().map(|h| h.height).unwrap_or(0);
+	let coin = wal.all_outputs().unwrap_or_default().into_iter().filter(|o| o.eligible_to_spend(height, 1) && o.root_key_id == wal.active_account().unwrap()).map(|o| o.value).max();
+	let coin = match coin {
+		Some(c) => c,
+		None => return,
+	};
+	let args = if no_change {
+		// the whole largest coin, fee taken from the amount: one input, no change
+		InitTxArgs { amount: coin, amount_includes_fee: Some(true), minimum_confirmations: 1, max_outputs: 1, num_change_outputs: 1, selection_strategy_is_use_all: false, ..Default::default() }
+	} else {
+		InitTxArgs { amount: 1_000_000_000 + rng.below(3_000_000_000), minimum_confirmations: 1, num_change_outputs: 1, selection_strategy_is_use_all: false, ..Default::default() }
+	};
+	let case = json!({"job": prop, "scenario": "init, reply, lock, cancel_tx, then finalize_tx with the honest reply", "no_change_output": no_change});
+	let r = (|| -> Result<(Slate, Slate, Context), libwallet::Error> {
+		let s1 = wal.init_send(args)?;
+		wal.lock_outputs(&s1)?;
+		let s2 = w.wallets[1].receive(&s1, None)?;
+		let ctx = wal.context(&s1.id)?;
+		wal.cancel(None, Some(s1.id))?;
+		Ok((s1, s2, ctx))
+	})();
+	let (s1, s2, ctx) = match r {
+		Ok(x) => x,
+		Err(e) => {
+			rep.count(&format!("cancel-then-finalize:setup-refused:{}", err_kind(&e)));
+			cleanup(w);
+			return;
+		}
+	};
+	if no_change && !ctx.output_ids.is_empty() {
+		rep.count("cancel-then-finalize:no-change-shape-not-reached");
+	}
+	rep.eval();
+	match catch(|| wal.finalize(&s2)) {
+		Err((loc, msg)) => rep.violation(&format!("{}|panic|{}", prop, loc), &msg, case.clone()),
+		Ok(Err(e)) => {
+			rep.count(&format!("cancel-then-finalize:refused:{}", err_kind(&e)));
+			rep.distinct(&("cancel-then-finalize", no_change, "refused"));
+		}
+		Ok(Ok(s3)) => {
+			let kc = wal.keychain();
+			let ins = commits_of(&kc, &ctx.input_ids);
+			let outs = wal.all_outputs().unwrap_or_default();
+			let unreserved: Vec<String> = outs.iter().filter(|o| ins.contains(&wal.commit_of(o).to_hex()) && o.status != OutputStatus::Locked).map(|o| format!("{} {}", idstr(&o.key_id), status_str(&o.status))).collect();
+			let entry = wal.all_txs().unwrap_or_default().into_iter().find(|t| t.tx_slate_id == Some(s1.id)).map(|t| type_str(&t.tx_type).to_string());
+			if !unreserved.is_empty() || s3.tx.is_none() {
+				rep.violation(&format!("{}|finalized-after-cancel|inputs-not-reserved", prop), &format!("finalize_tx returned a transaction for a send the wallet had cancelled (log entry {:?}); its inputs are not reserved: {:?}", entry, unreserved), case.clone());
+			} else {
+				rep.count("cancel-then-finalize:accepted-with-inputs-reserved");
+			}
+		}
+	}
+	let _ = w.wallets[1].cancel(None, Some(s1.id));
+	cleanup(w);
+}
+
 pub fn run(a: &Args, prop: &'static str) {
 	let mut rep = Report::new(prop);
 	let mut rng = Rng::new(a.shard_seed() ^ hash64(&prop));
@@ -826,6 +891,10 @@ pub fn run(a: &Args, prop: &'static str) {
 			}
 		}
 		cleanup(&mut w);
+	}
+	if !proof_focus {
+		cancelled_then_finalized(&mut w, &mut rep, &mut rng, prop, a.shard % 2 == 0);
+		cancelled_then_finalized(&mut w, &mut rep, &mut rng, prop, a.shard % 2 == 1);
 	}
 	if proof_focus {
 		named_account_scenario(&mut w, &mut rep, &mut rng, prop, a.shard % 2 == 1);
